@@ -10,6 +10,20 @@ use std::time::{Duration, Instant};
 pub const REPO: &str = "/repo";
 pub const WORK: &str = "/verif/.work";
 
+/// The repository under test: /repo, or `$VERIF_REPO` for mutation runs on a
+/// scratch worktree (the harness must then also have been *built* against it).
+pub fn repo_root() -> String {
+    std::env::var("VERIF_REPO").unwrap_or_else(|_| REPO.to_string())
+}
+
+/// Scratch root: /verif/.work, or `$VERIF_OUT/.work`.
+pub fn work_root() -> String {
+    match std::env::var("VERIF_OUT") {
+        Ok(o) => format!("{o}/.work"),
+        Err(_) => WORK.to_string(),
+    }
+}
+
 /// Fresh scratch directory under /verif/.work (never /tmp); removed on drop.
 pub struct Scratch {
     pub path: PathBuf,
@@ -21,7 +35,7 @@ impl Scratch {
         use std::sync::atomic::{AtomicU64, Ordering};
         static N: AtomicU64 = AtomicU64::new(0);
         let n = N.fetch_add(1, Ordering::Relaxed);
-        let p = PathBuf::from(format!("{WORK}/{}-{}-{}", tag, std::process::id(), n));
+        let p = PathBuf::from(format!("{}/{}-{}-{}", work_root(), tag, std::process::id(), n));
         let _ = std::fs::remove_dir_all(&p);
         std::fs::create_dir_all(&p).expect("create scratch");
         Scratch { path: p, keep: false }
@@ -163,7 +177,7 @@ pub fn write_file(p: &Path, text: &str) {
 pub fn corpus_files() -> Vec<PathBuf> {
     let mut v = Vec::new();
     for root in ["testcases/veryl", "crates/std/veryl/src"] {
-        let base = Path::new(REPO).join(root);
+        let base = Path::new(&repo_root()).join(root);
         for (rel, _) in read_tree(&base) {
             if rel.ends_with(".veryl") {
                 v.push(base.join(rel));
@@ -174,10 +188,13 @@ pub fn corpus_files() -> Vec<PathBuf> {
     v
 }
 
-/// Path of a binary built from /repo by `/verif/check` (veryl, veryl-ls).
+/// Path of the real `veryl` / `veryl-ls` binary.  They are harness packages
+/// (`vcli`, `vls`) whose bin targets are /repo's own `main.rs` files, so they
+/// sit next to the running check binary in the same target directory.
 pub fn repo_bin(name: &str) -> PathBuf {
     if let Ok(d) = std::env::var("VERIF_CLI_BIN_DIR") {
         return PathBuf::from(d).join(name);
     }
-    PathBuf::from(format!("/verif/.target/cli/release-verylup/{name}"))
+    let exe = std::env::current_exe().expect("current_exe");
+    exe.parent().expect("exe dir").join(name)
 }
